@@ -29,6 +29,20 @@ fn env(user_has: (bool, bool, bool)) -> Value {
         bound: vec![
             ("uo".into(), v_obj(uo.clone())),
             ("mk".into(), v_fn("mk", v_obj(uo))),
+            // a second user options object carrying the keys the first one lacks
+            ("uo2".into(), {
+                let mut o: Vec<(&str, Value)> = vec![("inheritAttrs", v_bool(true))];
+                if !user_has.0 {
+                    o.push(("props", v_arr(vec![v_str("userProp2")])));
+                }
+                if !user_has.1 {
+                    o.push(("emits", v_arr(vec![v_str("userEvent2")])));
+                }
+                if !user_has.2 {
+                    o.push(("name", v_str("UserName2")));
+                }
+                v_obj(o)
+            }),
             ("props".into(), v_arr(vec![v_str("shorthandProp")])),
             ("emits".into(), v_arr(vec![v_str("shorthandEvent")])),
             ("name".into(), v_str("ShorthandName")),
@@ -58,7 +72,7 @@ pub fn gen_case(c: &mut Choices) -> Case {
     };
     let user_has = (c.bool(), c.bool(), c.bool());
     // call shape
-    let shape = c.weighted(&[4, 3, 3, 2, 2, 2, 2, 1, 1, 1, 2]);
+    let shape = c.weighted(&[4, 3, 3, 2, 2, 2, 2, 1, 1, 1, 2, 2]);
     let mut labels: Vec<String> = vec![];
     let mut written_keys: Vec<&str> = vec![]; // keys the user supplies (literally or at run time)
     let from_uo = |keys: &mut Vec<&'static str>| {
@@ -155,6 +169,18 @@ pub fn gen_case(c: &mut Choices) -> Case {
             object_api = true;
             "{ setup() { return () => null; }, props: [\"x\"] }".to_string()
         }
+        10 => {
+            // two spreads: between them every one of props / emits / name is user-supplied
+            labels.push("shape=literal-two-spreads".into());
+            written_keys.push("props");
+            written_keys.push("emits");
+            written_keys.push("name");
+            if c.bool() {
+                format!("{setup}, {{ ...uo, inheritAttrs: false, ...uo2 }}")
+            } else {
+                format!("{setup}, {{ ...uo2, ...uo }}")
+            }
+        }
         _ => {
             labels.push("shape=literal-mixed-spread".into());
             from_uo(&mut written_keys);
@@ -216,7 +242,7 @@ pub fn gen_case(c: &mut Choices) -> Case {
         format!("{wrap_open}  {}{wrap_close}", stmt.replace('\n', "\n  "))
     };
     let src = format!(
-        "{prelude}import {{ uo, mk, props, emits, name, args2, rest, rec, f2 }} from \"env\";\n{body}\n"
+        "{prelude}import {{ uo, uo2, mk, props, emits, name, args2, rest, rec, f2 }} from \"env\";\n{body}\n"
     );
     let opts_on = format!("{{\"resolveType\":{rt}}}");
     let mut case = Case::new(src, "tsx", Some(opts_on));
@@ -403,7 +429,7 @@ impl Property for C20 {
             "provenance=local-function", "provenance=shadowing-parameter", "provenance=shadowing-inner-const",
             "provenance=other-module", "provenance=global", "shape=literal-with-keys", "shape=literal-spread-first",
             "shape=literal-spread-last", "shape=identifier-options", "shape=call-options", "shape=spread-args-0",
-            "shape=spread-args-1", "shape=options-api-object", "quoted-option-key", "shorthand-option-key",
+            "shape=spread-args-1", "shape=options-api-object", "shape=literal-two-spreads", "quoted-option-key", "shorthand-option-key",
             "resolveType=false", "user-key-present", "decl=export-default", "decl=assignment",
         ]
     }
